@@ -413,8 +413,9 @@ def check_nesting(ctx, F, rule="R-GUARD"):
            what="write_string writes balanced parentheses raw to any depth, but the reader cuts literal-string nesting off at MAX_BRACKET = %d: a string with deeper balanced parentheses cannot be read back" % limit)
     # reader side: depth starts at MAX_BRACKET
     ls = F.fn("parser::literal_string")
-    starts = [c for c in ls.calls if c.local and c.cname.endswith("inner_literal_string")]
-    oks = len(starts) == 1 and "MAX_BRACKET" in ls.oname(starts[0].args[0], 3) or (len(starts) == 1 and ls.oname(starts[0].args[0], 3) == str(limit))
+    # (the call may stand in a closure of literal_string, and the counter may be any of the callee's parameters)
+    starts = [(x, c) for x in F.with_closures(ls) for c in x.calls if c.local and c.cname.endswith("inner_literal_string")]
+    oks = len(starts) == 1 and any("MAX_BRACKET" in starts[0][0].oname(a, 3) or starts[0][0].oname(a, 3) == str(limit) for a in starts[0][1].args)
     ctx.ob(rule, "strings|reader-depth-start", oks, "literal_string starts inner_literal_string at MAX_BRACKET", ls.where(),
            what="parser::literal_string no longer starts the nesting counter at MAX_BRACKET")
 
